@@ -31,6 +31,7 @@ Inductive dispatch_shape (s : st) (b : nat) (fo : bool) : st -> bool -> Prop :=
     dispatch_shape s b fo (submit_state s (taken s) (pre_left s) r t) true
 | ds_iterfail f pl : aborting s = false -> ready s = [] -> ifail s = Some f -> taken s <= f ->
     f - taken s <= N s - taken s ->
+    (pl = pre_left s \/ exists g, pl = opt_sub (pre_left s) g) ->
     dispatch_shape s b fo (do_iter_error s f pl) true
 | ds_none : aborting s = false -> ready s = [] ->
     (N s <= taken s \/ (fo = false /\ pre_left s = Some 0) \/ b * n_jobs (c s) = 0) ->
@@ -112,7 +113,8 @@ Proof.
   - destruct ((taken s <=? f) && (f - taken s <? calls)) eqn:Hc.
     + cbn [fst snd]. apply andb_prop in Hc as [H1 H2]. apply Nat.leb_le in H1. apply Nat.ltb_lt in H2.
       eapply ds_iterfail; try eassumption.
-      unfold calls in H2. destruct (lim <=? avail) eqn:Hla; [apply Nat.leb_le in Hla|]; unfold avail in *; lia.
+      * unfold calls in H2. destruct (lim <=? avail) eqn:Hla; [apply Nat.leb_le in Hla|]; unfold avail in *; lia.
+      * destruct fo; [left; reflexivity | right; eexists; reflexivity].
     + apply Hnofail. apply andb_false_iff in Hc. destruct Hc as [Hc | Hc].
       * right. apply Nat.leb_gt in Hc. exact Hc.
       * apply Nat.ltb_ge in Hc. unfold calls in Hc.
@@ -146,8 +148,8 @@ Hypothesis P_cb_stale : forall s t k, P s -> nth_error (trk s) t = Some k -> In 
 Hypothesis P_exhaust : forall s, P s -> orig s = true ->
   (aborting s = true \/ (ready s = [] /\ N s <= taken s)) -> P (set_flags s false false (phase s)).
 Hypothesis P_want : forall s, P s -> P (set_want s).
-Hypothesis P_close_try : forall s, P s -> phase s = Retrieving -> P (finalize s Finished true true).
-Hypothesis P_close_drain : forall s r, P s -> phase s = Draining r -> P (set_out s (jobs s) (jset s) [] false Finished).
+Hypothesis P_close_try : forall s, P s -> phase s = Retrieving -> P (abandon (finalize s Finished true true)).
+Hypothesis P_close_drain : forall s r, P s -> phase s = Draining r -> P (abandon (set_out s (jobs s) (jset s) [] false Finished)).
 Hypothesis P_timeout : forall s j, P s -> want s = true -> timeout_target s = Some j -> status_of s j = Pending ->
   P (do_timeout s j).
 (* retrieval *)
